@@ -203,7 +203,8 @@ def monitorConn (c : ConnCase) (obs : String) : String :=
     let initOk := i == "init=ok"
     let respOk := r == "resp=ok"
     -- the responder completes iff all four conditions hold; the initiator is done iff the first three do
-    if respOk != expectedComplete symH symN1 c.p1 symN2 c.p2 c.net then
+    if holdsConn symH symN1 c.p1 symN2 c.p2 c.net initOk respOk then "ok"
+    else if respOk != expectedComplete symH symN1 c.p1 symN2 c.p2 c.net then
       (if respOk then "FAIL responder-completed-but-conditions-do-not-hold"
        else "FAIL responder-failed-although-all-conditions-hold")
     else if initOk != expectedInitiatorDone symH symN1 c.p1 symN2 c.p2 c.net then
